@@ -300,7 +300,7 @@ fn c16_subs<B: Fld>(run: &Arc<Run>) -> Vec<Arc<dyn Sub>> {
         let all = Arc::new(all_assertions(n));
         let m = all.len() as u64;
         let a2 = all.clone();
-        let do_prepare = n <= 32;
+        let do_prepare = n <= if tier.is_thorough() { 256 } else { 32 };
         subs.push(sub_t(
             &format!("{}.overlap.n{}", B::NAME, n),
             m,
